@@ -5,6 +5,7 @@ from ..core import affine as A
 from ..core.program import fmt_term, fmt_atom
 
 META = {
+    "technique": 'static analysis: repository-specific cursor (affine), guard-dominance and path rules over LLVM IR (CFG, SSA, resolved call graph), plus table extraction of the six byte-order helpers by finite evaluation of their IR',
     "explanation": (
         "(1) never blocks / never spins: every buffered_socket_init in the accept handlers is dominated by the success class of "
         "prepare_peer_socket, whose success paths all pass set_fd_non_blocking(fd) >= 0 for the same descriptor, and "
